@@ -567,8 +567,11 @@ def run(prog: Program) -> Results:
         if not prog.has_func(key):
             continue
         g = prog.func(key)
-        from sa.util import tail_into_cases
-        gnode = tail_into_cases(g.node)  # arms that only pick the expression / chain and share one recursive call after the match
+        from sa.util import tail_into_cases, match_form
+        gnode = tail_into_cases(match_form(g.node))  # arms that only pick the expression / chain and share one recursive call after the match
+        if not any(isinstance(p_, ast.MatchClass) and norm(p_.cls) == "WithStatement" for n in walk_no_nested(gnode) if isinstance(n, ast.Match)
+                   for cs in n.cases for p_ in (cs.pattern.patterns if isinstance(cs.pattern, ast.MatchOr) else [cs.pattern])):
+            res.unclass(f"{key}: the arm that handles `with` was not found (neither a `case WithStatement()` nor an isinstance dispatch)")
         for m_ in [n for n in walk_no_nested(gnode) if isinstance(n, ast.Match)]:
             subj = norm(m_.subject)
             for cs in m_.cases:
@@ -693,19 +696,32 @@ def run(prog: Program) -> Results:
                             pv = gexp.generators[0].target.id
                 formals_iter = al7.norm(it).endswith(".argument_set")
                 src = elt
+                srcs = [elt]
                 if isinstance(elt, ast.Name) and loop is not None:
+                    # every assignment of the appended local in the loop (supplied binding in one arm, default in the other)
                     ds = [d for d in ast.walk(loop) if isinstance(d, ast.Assign) and norm(d.targets[0]) == elt.id]
-                    src = ds[0].value if len(ds) == 1 else elt
-                keyed = False
-                if pv is not None and src is not None:
-                    keyed = f"{pv}.name" in norm(src)
-                    if not keyed and isinstance(src, ast.Call) and isinstance(src.func, ast.Name) and src.func.id in prog.funcs:
+                    srcs = [d.value for d in ds] or [elt]
+                    src = srcs[0]
+
+                def keyed_one(src):
+                    if pv is None or src is None:
+                        return False
+                    if f"{pv}.name" in norm(src):
+                        return True
+                    if isinstance(src, ast.Call) and isinstance(src.func, ast.Name) and src.func.id in prog.funcs:
                         # a helper that receives the formal and looks it up under its own name
                         h7 = prog.funcs[src.func.id]
                         for pos, a_ in enumerate(src.args):
                             if isinstance(a_, ast.Name) and a_.id == pv and pos < len(h7.params()):
                                 hp = h7.params()[pos]
-                                keyed = any(isinstance(x, ast.Attribute) and x.attr == "name" and norm(x.value) == hp for x in ast.walk(h7.node))
+                                if any(isinstance(x, ast.Attribute) and x.attr == "name" and norm(x.value) == hp for x in ast.walk(h7.node)):
+                                    return True
+                    return False
+
+                bad_src = [x for x in srcs if not keyed_one(x)]
+                keyed = not bad_src
+                if bad_src:
+                    src = bad_src[0]
                 ok = formals_iter and keyed
                 why = ("it iterates `" + norm(it)[:40] + "`, not the declared formals") if not formals_iter else \
                     f"`{norm(src)[:50] if src is not None else '?'}` is not keyed by the formal's own name"
